@@ -32,8 +32,10 @@ Definition changed (b : plan) (afters : list (nat * plan)) : bool :=
 (** *** where join reordering is justified
     [rs_chk b a] follows [reorder_chk]: at a place where the pass fires, both trees must be
     well-formed join trees with the same normal form; above it only operators through which
-    bag equality is proved to propagate may occur (so not Limit/Skip, whose result depends on the
-    order of their input, and — not proved — Distinct/Aggregate/joins). *)
+    bag equality is proved to propagate may occur: Return, Project, Filter, Sort, Expand, Distinct
+    (over duplicate-free column names), Aggregate — not Limit/Skip, whose result depends on the
+    order of their input.  (The pass does not descend into the inputs of a Join that is not itself
+    reordered, of a LeftJoin, a Union or a chained NodeScan: there [reorder_chk] demands the same plan.) *)
 Fixpoint rs_chk (b a : plan) : bool :=
   if reorder_fires b then jt_wf b && jt_wf a && jnf_eqb b a
   else
@@ -42,8 +44,13 @@ Fixpoint rs_chk (b a : plan) : bool :=
     | PProject its i, PProject its' j => list_eqb item_eqb its its' && rs_chk i j
     | PFilter e i, PFilter e' j => expr_eqb e e' && rs_chk i j
     | PSort ks i, PSort ks' j => list_eqb skey_eqb ks ks' && rs_chk i j
-    | PExpand f t ev d ty i, PExpand f' t' ev' d' ty' j =>
-        String.eqb f f' && String.eqb t t' && ostr_eqb ev ev' && dir_eqb d d' && ostr_eqb ty ty' && rs_chk i j
+    | PExpand f t ev d ty h i, PExpand f' t' ev' d' ty' h' j =>
+        String.eqb f f' && String.eqb t t' && ostr_eqb ev ev' && dir_eqb d d' && ostr_eqb ty ty' && hops_eqb h h'
+        && rs_chk i j
+    | PDistinct i, PDistinct j =>
+        nodupb (schema i) && nodupb (schema j) && uniform i && uniform j && rs_chk i j
+    | PAgg gs ags i, PAgg gs' ags' j =>
+        list_eqb expr_eqb gs gs' && list_eqb agg_eqb ags ags' && rs_chk i j
     | _, _ => plan_eqb b a
     end.
 
@@ -77,7 +84,7 @@ Definition k_stack_opts_pre (b : plan) (afters : list (nat * plan)) : bool :=
 
 Fixpoint edge_vars (p : plan) : list var :=
   match p with
-  | PExpand _ _ ev _ _ i => (match ev with Some e => [e] | None => [] end) ++ edge_vars i
+  | PExpand _ _ ev _ _ _ i => (match ev with Some e => [e] | None => [] end) ++ edge_vars i
   | PScanIn _ _ i | PFilter _ i | PProject _ i | PReturn _ _ i | PAgg _ _ i
   | PSort _ i | PSkip _ i | PLimit _ i | PDistinct i => edge_vars i
   | PJoin _ _ l r | PLeftJoin l r | PUnion l r => edge_vars l ++ edge_vars r
@@ -96,14 +103,14 @@ Fixpoint prop_vars (e : expr) : list var :=
 Fixpoint typed_chain (p : plan) : bool :=
   match p with
   | PScan _ _ => true
-  | PExpand _ _ _ _ _ i | PFilter _ i => typed_chain i
+  | PExpand _ _ _ _ _ _ i | PFilter _ i => typed_chain i
   | _ => false
   end.
 
 Fixpoint edge_prop_untyped (evs : list var) (p : plan) : bool :=
   match p with
   | PFilter e i => (uses_any (prop_vars e) evs && negb (typed_chain i)) || edge_prop_untyped evs i
-  | PScanIn _ _ i | PExpand _ _ _ _ _ i | PProject _ i | PReturn _ _ i | PAgg _ _ i
+  | PScanIn _ _ i | PExpand _ _ _ _ _ _ i | PProject _ i | PReturn _ _ i | PAgg _ _ i
   | PSort _ i | PSkip _ i | PLimit _ i | PDistinct i => edge_prop_untyped evs i
   | PJoin _ _ l r | PLeftJoin l r | PUnion l r => edge_prop_untyped evs l || edge_prop_untyped evs r
   | PEmpty | PScan _ _ => false
@@ -120,13 +127,14 @@ Definition k_edge_opts (b : plan) (afters : list (nat * plan)) : bool :=
        rows.  Next to a join the columns of the other side are read at the wrong positions, so a
        predicate above the join sees NULL where the same predicate pushed below sees the value.
        Decided on the graph: some chain of the plan has a hop without rows over a non-empty input. *)
-Definition is_expand (p : plan) : bool := match p with PExpand _ _ _ _ _ _ => true | _ => false end.
+Definition is_expand (p : plan) : bool := match p with PExpand _ _ _ _ _ h _ => is_single h | _ => false end.
 Definition isnil {A} (l : list A) : bool := match l with [] => true | _ => false end.
 
 Fixpoint dry_chain (G : graph) (in_chain : bool) (p : plan) : bool :=
   match p with
-  | PExpand _ _ _ _ _ i =>
-      ((in_chain || is_expand i) && isnil (sem G p) && negb (isnil (sem G i))) || dry_chain G true i
+  | PExpand _ _ _ _ _ h i =>
+      (is_single h && (in_chain || is_expand i) && isnil (sem G p) && negb (isnil (sem G i)))
+      || dry_chain G (is_single h) i
   | PScanIn _ _ i | PFilter _ i | PProject _ i | PReturn _ _ i | PAgg _ _ i
   | PSort _ i | PSkip _ i | PLimit _ i | PDistinct i => dry_chain G false i
   | PJoin _ _ l r | PLeftJoin l r | PUnion l r => dry_chain G false l || dry_chain G false r
